@@ -32,6 +32,17 @@ fn expected_cmd(byte: u8) -> u8 {
 /// Feed `stream` to a fresh decoder in the given pieces; after every feed the
 /// frames decoded so far and the leftover buffer must equal the reference.
 fn feed_and_compare(stream: &[u8], cuts: &[usize]) -> Result<usize, String> {
+    // "every byte string is decodable without failure": a panic in the decoder is a verdict, not a crash of the monitor
+    match std::panic::catch_unwind(std::panic::AssertUnwindSafe(|| feed_and_compare_inner(stream, cuts))) {
+        Ok(r) => r,
+        Err(_) => {
+            let _ = crate::run::take_thread_panics();
+            Err(format!("decoder panicked on a fragmented stream ({})", crate::run::last_panic()))
+        }
+    }
+}
+
+fn feed_and_compare_inner(stream: &[u8], cuts: &[usize]) -> Result<usize, String> {
     let mut codec = FrameCodec;
     let mut buf = BytesMut::new();
     let mut got: Vec<(u8, u32, Vec<u8>)> = Vec::new();
